@@ -438,6 +438,20 @@ class Exec:
     def s_Pass(self, st, p):
         return [p]
 
+    def s_AnnAssign(self, st, p):
+        # `x: T = v` is `x = v`; a bare annotation `x: T` does nothing at run time (annotations of locals are not evaluated)
+        if st.value is None:
+            return [p]
+        return self.stmt(ast.copy_location(ast.Assign(targets=[st.target], value=st.value, type_comment=None), st), p)
+
+    def e_NamedExpr(self, e, p):
+        # `(name := value)`: binds the local and is the value
+        for q, v in self.ev(e.value, p):
+            if not isinstance(e.target, ast.Name):
+                raise Unsupported("walrus target")
+            q.env[e.target.id] = v
+            yield q, v
+
     def s_Expr(self, st, p):
         if isinstance(st.value, (ast.Yield, ast.YieldFrom)):
             return self.s_yield(st.value, p)
@@ -605,6 +619,10 @@ class Exec:
                 if isinstance(tgt, ast.Attribute):
                     for r, obj in self.ev(tgt.value, q):
                         nq += self.attr_delete(obj, self.mangle(tgt.attr), r)
+                elif isinstance(tgt, ast.Name) and tgt.id in q.env:
+                    # `del tmp`: the local is unbound from here on
+                    q.env.pop(tgt.id)
+                    nq.append(q)
                 else:
                     raise Unsupported("del %s" % ast.unparse(tgt))
             qs = nq
